@@ -266,3 +266,5 @@ W void w_parse_array_f(const unsigned char* in, unsigned n, unsigned char limit,
   else { c = (d.*get(T_sa()))(NL(limit)); o->aux = 0; }      // what parseVariant<Filter> does for '['
   o->aux2 = unsigned(rm.overflowed()); fill(o, d, in, c);
 }
+W size_t w_jsa_size(const JsonStringAdapter* a) { return a->size(); }
+W const char* w_jsa_data(const JsonStringAdapter* a) { return a->data(); }
